@@ -982,6 +982,7 @@ DString * opendocument_core_file_create(DString * body, mmd_engine * e, const ch
 	free(result->str);
 
 	status = mz_zip_writer_finalize_heap_archive(zip, (void **) & (result->str), (size_t *) & (result->currentStringLength));
+	result->currentStringBufferSize = result->currentStringLength;
 
 	if (!status) {
 		fprintf(stderr, "Error finalizing zip archive.\n");
